@@ -1466,6 +1466,14 @@ int32 psX509ParseCert(psPool_t *pool, const unsigned char *pp, uint32 size,
         return PS_MEM_FAIL;
     }
     Memset(cert, 0x0, sizeof(psX509Cert_t));
+    cert->pool = pool;
+
+    if (pp == NULL || size == 0)
+    {
+        psTraceCrypto("Empty input to psX509ParseCert\n");
+        cert->parseStatus = PS_X509_PARSE_FAIL;
+        return PS_ARG_FAIL;
+    }
 
 # ifdef ALWAYS_KEEP_CERT_DER
     flags |= CERT_STORE_UNPARSED_BUFFER;
